@@ -16,7 +16,11 @@ template <> FP<long double> cbK<long double>() { return cbK_l; }
 static bool g_allow_wild = true;
 static std::string g_focus = "store";
 
-static std::string rand_handle() { static const char* H[] = {"A", "B", "C", "d e", "E-1", "twin-src"}; return H[R->below(6)]; }
+static std::string rand_handle() {
+  // handles are used verbatim: twins that differ only by a trailing / leading blank, by case or by a dash must stay distinct
+  static const char* H[] = {"A", "B", "C", "d e", "E-1", "twin-src", "A ", " A", "a", "E1"};
+  return H[R->below(R->below(3) == 0 ? 10 : 6)];
+}
 static std::string pick_sol() {
   // weighted towards the stateful solutions the properties name
   static const char* HOT[] = {"fans_sa_steady_wall_bounded", "sod_1d", "cp_normal", "radiation_integrated_intensity", "navierstokes_4d_compressible_powerlaw", "euler_1d", "heateq_2d_steady_const"};
@@ -161,8 +165,26 @@ template <class S> struct Ops {
     if ((rc == 0) != (want == 0)) hviol("C11", "sanity_check-status:" + in.sol, "masa_sanity_check returned " + std::to_string(rc) + ", model expects " + (want ? "non-zero" : "0"));
     compare_selected(m, "C11", "sanity-changed-state", "after masa_sanity_check");
   }
+  // the solution whose parameters are vectors: all three vectors set to one common length (1..64, also beyond the default 25 and
+  // beyond / below the scalar no_gauss), then both evaluators are compared with the sums over the vectors just set
+  void set_vec_triple() {
+    auto& in = m.cur();
+    static const int LENS[] = {1, 2, 3, 7, 24, 25, 26, 27, 40, 64};
+    int len = R->coin() ? LENS[R->below(10)] : 1 + R->below(64);
+    for (const char* n : {"vec_amp", "vec_mean", "vec_stdev"}) {
+      if (!in.vec.count(n)) return;
+      std::vector<S> v((size_t)len);
+      for (auto& x : v) x = (S)(n[4] == 'a' ? R->uni(1.0L, 10.0L) : n[4] == 'm' ? R->uni(0.0L, 1.0L) : R->uni(0.02L, 0.5L));
+      hist("masa_set_vec<" + P + ">(\"" + n + "\",len " + std::to_string(len) + ") [consistent triple] on " + m.sel + ":" + in.sol);
+      CAP.begin(); masa_set_vec<S>(n, v); CAP.end();
+      in.vec[n] = v; in.version = next_version(); m.recent[m.sel].clear();
+    }
+    compare_selected(m, "C11", "set_vec-leak", "after setting the three radiation vectors");
+    eval(ev_index("source_u/S1")); eval(ev_index("exact_u/S1"));
+  }
   void set_vec() {
     auto& in = m.cur();
+    if (in.sol == "radiation_integrated_intensity" && R->coin()) { set_vec_triple(); return; }
     std::string n = pick_name(true);
     bool invalid = n.empty() || R->below(6) == 0;
     if (invalid) {
@@ -215,20 +237,21 @@ template <class S> struct Ops {
     if (outp) *outp = o.out;
     return b;
   }
-  void eval() {
+  void eval(int force_ei = -1) {
     auto& in = m.cur();
     const SolSpec* sp = find_sol(in.sol);
     if (!sp) return;
     if (!kExceptions && in.sol == "sod_1d" && in.wild) return;
     // mostly provided evaluators, sometimes any overload of the API
     int ei;
-    if (!sp->prov.empty() && R->below(5) != 0) { auto it = sp->prov.begin(); std::advance(it, R->below((int)sp->prov.size())); ei = ev_index(*it); }
+    if (force_ei >= 0) ei = force_ei;
+    else if (!sp->prov.empty() && R->below(5) != 0) { auto it = sp->prov.begin(); std::advance(it, R->below((int)sp->prov.size())); ei = ev_index(*it); }
     else ei = R->below((int)api().size());
     const long double* a = POOL[R->below(32)];
     int idx = -999;
     // half of the time: repeat a call already made on these parameters (after arbitrary other calls in between)
     auto& rc = m.recent[m.sel];
-    if (!rc.empty() && R->coin()) { const EvalRec& r0 = rc[(size_t)R->below((int)rc.size())]; ei = r0.ev; idx = r0.idx; for (auto& pp : POOL) if (pp[0] == r0.a[0] && pp[1] == r0.a[1] && pp[2] == r0.a[2] && pp[3] == r0.a[3]) a = pp; }
+    if (force_ei < 0 && !rc.empty() && R->coin()) { const EvalRec& r0 = rc[(size_t)R->below((int)rc.size())]; ei = r0.ev; idx = r0.idx; for (auto& pp : POOL) if (pp[0] == r0.a[0] && pp[1] == r0.a[1] && pp[2] == r0.a[2] && pp[3] == r0.a[3]) a = pp; }
     const Ev& e = api()[ei];
     if (idx == -999) idx = (e.kind == KI) ? 1 + R->below(std::max(1, e.n >= 4 ? 3 : e.n)) : (e.kind == KK ? R->below(7) : 0);
     hist("masa_eval_" + e.id + "<" + P + ">(pool point, idx " + std::to_string(idx) + ") on " + m.sel + ":" + in.sol);
@@ -247,6 +270,33 @@ template <class S> struct Ops {
     if (m.recent[m.sel].size() > 24) m.recent[m.sel].erase(m.recent[m.sel].begin());
     // evaluating never changes a parameter
     compare_selected(m, "C10", "evaluator-wrote-parameter:" + e.id, "after masa_eval_" + e.id);
+    if (in.sol == "radiation_integrated_intensity" && b.compare(0, 5, "FATAL") != 0 && b != "ABNORMAL") radiation_reference(in, e, a, b);
+  }
+  // C11 "evaluators use the values last set", for the solution whose parameters are vectors: the documented sums over ALL
+  // gaussians of the vectors the model holds (source: sum amp_i exp(-(x-mean_i)^2/(2 sd_i^2)); exact: sum amp_i (Phi((x-mean_i)/sd_i) - Phi(-mean_i/sd_i)),
+  // Phi(t) = (1 + erf t)/2 as radiation.cpp documents it), evaluated in long double
+  void radiation_reference(const Inst<S>& in, const Ev& e, const long double* a, const std::string& libbits) {
+    if (e.id != "source_u/S1" && e.id != "exact_u/S1") return;
+    auto am = in.vec.find("vec_amp"), me = in.vec.find("vec_mean"), sd = in.vec.find("vec_stdev");
+    if (am == in.vec.end() || me == in.vec.end() || sd == in.vec.end()) return;
+    size_t n = am->second.size();
+    if (n == 0 || me->second.size() != n || sd->second.size() != n) return;   // unequal lengths: the library's own warning path, not judged here
+    S xs = (S)a[0];
+    long double x = (long double)xs, ref = 0, mag = 0;
+    if (e.id == "exact_u/S1" && !(x > 0)) return;
+    for (size_t i = 0; i < n; i++) {
+      long double A = (long double)am->second[i], M = (long double)me->second[i], D = (long double)sd->second[i], t;
+      if (e.id == "source_u/S1") t = A * expl(-(x - M) * (x - M) / (2 * D * D));
+      else t = A * (0.5L * (1 + erfl((x - M) / D)) - 0.5L * (1 + erfl(-M / D)));
+      ref += t; mag += fabsl(e.id == "source_u/S1" ? t : A);
+    }
+    if (!std::isfinite(ref) || !std::isfinite(mag)) return;
+    S lib; { S as[4]; for (int i = 0; i < 4; i++) as[i] = (S)a[i]; CAP.begin(); lib = call_ev<S>(e, as, 0, cbK<S>()); CAP.end(); }
+    CNT.radiation_refs++;
+    long double tol = (sizeof(S) == 8 ? 1e-11L : 1e-14L) * (mag + fabsl(ref)) + 1e-300L;
+    if (!(fabsl((long double)lib - ref) <= tol))
+      hviol("C11", "evaluator-ignores-vector-values:" + e.id, "radiation " + e.id + " returned " + sval(lib) + " (" + libbits + ") but the sum over all " + std::to_string(n) + " gaussians of the vectors last set is " + jnum(ref),
+            JObj().str("evaluator", e.id).num("x", x).num("library", (long double)lib).num("reference", ref).num("n_gaussians", (long long)n).num("no_gauss", (long double)(in.sc.count("no_gauss") ? in.sc.at("no_gauss") : S(0))).done());
   }
   // twin-handle reproduction: a fresh instance given the same parameters reproduces the logged bits
   void twin() {
